@@ -306,6 +306,8 @@ func (i StartSubroutine) String() string {
 }
 
 func (i StartSubroutine) adjust(offset int, state *GenState) SearchInstruction {
+	// Id is the subroutine's own position, which the calls' targets must keep matching
+	i.Id += offset
 	i.EndOffset += offset
 	return i
 }
